@@ -106,7 +106,15 @@ class DagWalker(Walker):
         if formula in self.memoization:
             return self.memoization[formula]
 
-        res = self.iter_walk(formula, **kwargs)
+        try:
+            res = self.iter_walk(formula, **kwargs)
+        except:
+            # Do not leave the unprocessed part of this walk (nor its
+            # partial one-time memoization) to the next call
+            del self.stack[:]
+            if self.invalidate_memoization:
+                self.memoization.clear()
+            raise
 
         if self.invalidate_memoization:
             self.memoization.clear()
